@@ -11,7 +11,8 @@ Tie        : correspondence
                gc_run   every collection of every generated history: real Table.garbage_collect (traced
                         storage, frozen clock) vs Model/GC.v gc_run on the directory read by an independent
                         reader: outcome, exact deleted set, keep sets, storage-call trace, final key set
-               wf       the store built from the real directory satisfies the writer-form invariant wf_storeb
+               hinv     the store built from the real directory before every collection satisfies the invariant of
+                        C05_history (hinvb: writer path forms + every retained snapshot fully present; sound by hinvb_sound)
 Oracle /   : implementation only (independent reader: json + fastavro + pyarrow; no model):
 search       random histories {append (3 path spellings), multi-op txn, delete_files, expire, delete_snapshot,
              open / commit / roll back transactions, planted orphans, collect(grace)} x table-location spellings
@@ -39,7 +40,7 @@ from harness.lib.coqio import Nat, to_coq
 
 LEVEL = "proof"
 THEOREMS = ["C05_norm_agree", "C05_gc_safe", "C05_gc_live", "C05_no_abort", "C05_history"]
-REQ = gcsim.REQ
+REQ = gcsim.REQ + ["DS.Model.GCHist"]
 TIMEOUT_MS = 24 * 3600 * 1000
 
 MANIFEST_ENTRY = {
@@ -305,7 +306,7 @@ def do_collect(t: Any, reader: gcsim.IndepReader, root: str, tp_seen: str, overr
         if survivors:
             viol.append({"key": "orphans-survive", "what": f"collect(grace={grace}) at {tp_seen!r} left {len(survivors)} unreferenced, unprotected file(s) older than the grace period: {survivors[:4]}"})
     return {"violations": viol, "deleted": deleted_files,
-            "expr": f"let st := {store} in ({gcsim.gc_expr(tp_seen, grace, int(now * 1000), TIMEOUT_MS, [], snaps, 'st')}, wf_storeb {to_coq(snaps)} st)",
+            "expr": f"let st := {store} in ({gcsim.gc_expr(tp_seen, grace, int(now * 1000), TIMEOUT_MS, [], snaps, 'st')}, hinvb {to_coq(snaps)} st)",
             "real": {k: real[k] for k in ("raised", "exc_type", "exc", "phase", "trace", "keep_sets", "unknown")},
             "before": before, "after": after, "grace": grace, "tp": tp_seen,
             "n_reach": len(reach), "n_live": len(live | set(registered)), "n_old": len(old_keys), "n_young": len(young_keys)}
@@ -404,9 +405,10 @@ def run_histories(ctx) -> None:
         if diffs:
             bad.append({"spelling": case["spelling"], "seed": case["seed"], "op_index": c["op_index"], "grace": c["grace"], "table_path": c["tp"], "diffs": diffs[:4]})
         if w is not True:
-            bad_wf.append({"spelling": case["spelling"], "seed": case["seed"], "op_index": c["op_index"], "note": "directory written by the real writers is not wf_store"})
+            bad_wf.append({"spelling": case["spelling"], "seed": case["seed"], "op_index": c["op_index"],
+                           "note": "the directory written by the real writers does not satisfy hinvb (writer path forms + every retained snapshot fully present)"})
     ctx.correspondence("gc_run", len(recs), bad)
-    ctx.correspondence("wf", len(recs), bad_wf)
+    ctx.correspondence("hinv", len(recs), bad_wf)
 
 
 # ------------------------------------------------------------------------------------------ pure-kernel correspondences
